@@ -85,6 +85,12 @@ class W:
 
 def fopen(path, *a, **k):
     mode = a[0] if a else k.get("mode", "r")
+    if is_target(path) and any(c in mode for c in "wax+"):
+        # the target itself is opened for writing: whatever follows is not an atomic replacement
+        trace.append("open-target-for-write")
+        fh = real_open(path, *a, **k)
+        fire("target_write")
+        return fh
     if is_tmp(path) and ("w" in mode or "a" in mode or "x" in mode):
         trace.append("open")
         fire("open")
